@@ -3,6 +3,7 @@
 package verifpvm
 
 import (
+	"github.com/New-JAMneration/JAM-Protocol/PVM"
 	"strconv"
 	"strings"
 
@@ -134,6 +135,12 @@ func GenC04(r *h.Rng, tier string, emit func(string)) {
 		if psimSteps(code) >= 5000 { // a looping program would never finish under a huge limit
 			continue
 		}
+		if hasSbrk(code) {
+			// under Psi_M the heap limit is the real stack boundary (~4 GiB): an sbrk of a random register value maps up to
+			// a million pages, which the list-based model does page by page (quadratic). sbrk is covered by the run cases.
+			st.Inc("psim-skipped-sbrk")
+			continue
+		}
 		lims := []uint64{0, 1, 2, 3, 5, 10, 11, 12, 20, 21, 50, 1000, 1 << 32, 1<<63 - 1, 1 << 63, 1<<63 + 1, ^uint64(0), ^uint64(0) - 1}
 		for k := 0; k < 4; k++ {
 			lims = append(lims, uint64(r.Intn(40)), r.U64(), r.U64()|1<<63)
@@ -163,4 +170,18 @@ func GenC05(r *h.Rng, tier string, emit func(string)) {
 		st.Inc("sbrk-program")
 	}
 	h.EmitStats(emit, st)
+}
+
+// hasSbrk reports whether the program has an sbrk instruction (opcode 101) at an instruction start.
+func hasSbrk(blob []byte) bool {
+	p, ex := PVM.DeBlobProgramCode(blob)
+	if ex != PVM.ExitContinue {
+		return false
+	}
+	for i, b := range p.InstructionData {
+		if b == 101 && i < len(p.Bitmasks) && p.Bitmasks[i]&1 != 0 {
+			return true
+		}
+	}
+	return false
 }
